@@ -334,6 +334,21 @@ func checkNames(fd *descriptorpb.FileDescriptorProto, locs []*descriptorpb.Sourc
 	}
 	enums(nil, 5, fd.EnumType)
 	fields(nil, 7, fd.Extension)
+	// the modifier of an import: one location per entry of public_dependency / weak_dependency
+	for num, word := range map[int32]string{10: "public", 11: "weak"} {
+		n := len(fd.PublicDependency)
+		if num == 11 {
+			n = len(fd.WeakDependency)
+		}
+		for i := 0; i < n && msg == ""; i++ {
+			l := byPath[fmt.Sprint([]int32{num, int32(i)})]
+			if l == nil {
+				msg = fmt.Sprintf("no location for the `%s` modifier of import %d (path [%d %d])", word, i, num, i)
+			} else if got, ok := spanText(l); ok && got != word {
+				msg = fmt.Sprintf("the location of the `%s` modifier (path [%d %d], span %v) covers %q", word, num, i, l.Span, got)
+			}
+		}
+	}
 	for i, sv := range fd.Service {
 		sp := []int32{6, int32(i)}
 		check(sp, sv.GetName(), false)
